@@ -411,7 +411,7 @@ func (l *lemmas) discharge(s *Site) (string, bool) {
 
 func (l *lemmas) regName() string {
 	if g := registerGlobal(l.w); g != nil {
-		return globalName(g)
+		return regMemName(g)
 	}
 	return "?"
 }
@@ -610,7 +610,7 @@ func (w *World) registerEntryValue(name string) bool {
 	if reg == nil {
 		return false
 	}
-	return strings.Contains(name, "lookup(g:"+globalName(reg)) || strings.Contains(name, "v:next#")
+	return strings.Contains(name, "lookup(g:"+regMemName(reg)) || strings.Contains(name, "v:next#")
 }
 
 // noDupKeys: the CBOR ordered map never holds a key twice: the only writers
